@@ -343,7 +343,11 @@ def pfile_tables(P, headers):
         body.append('    printf(" calls=");')
         for k, (mn, a, b) in enumerate(methods):
             body.append('    pbcv_called = -1; %s__%s(&pbcv_svc%d.base, (const %s *) &dummy_in, (%s_Closure) op_svc, &dummy_cd);' % (lc, camel_to_lower(mn), si, mtypes(a), mtypes(b)))
-            body.append('    printf("%%s%%d:%%d", %s, pbcv_called, pbcv_a_svc == (void *) &pbcv_svc%d && pbcv_a_in == (void *) &dummy_in && pbcv_a_cl == (const void *) op_svc && pbcv_a_cd == (void *) &dummy_cd);' % ('","' if k else '""', si))
+            # ... and once more with a NULL closure and NULL closure data (a fire-and-forget call): the handler must be handed
+            # exactly those (seeded change S131); the printed flag is the conjunction of both calls
+            body.append('    { int c1 = pbcv_called, ok1 = pbcv_a_svc == (void *) &pbcv_svc%d && pbcv_a_in == (void *) &dummy_in && pbcv_a_cl == (const void *) op_svc && pbcv_a_cd == (void *) &dummy_cd;' % si)
+            body.append('      pbcv_called = -1; pbcv_a_cl = (const void *) &dummy_in; pbcv_a_cd = &dummy_in; %s__%s(&pbcv_svc%d.base, (const %s *) &dummy_in, NULL, NULL);' % (lc, camel_to_lower(mn), si, mtypes(a)))
+            body.append('      printf("%%s%%d:%%d", %s, c1, ok1 && pbcv_called == c1 && pbcv_a_svc == (void *) &pbcv_svc%d && pbcv_a_in == (void *) &dummy_in && pbcv_a_cl == NULL && pbcv_a_cd == NULL); }' % ('","' if k else '""', si))
         body.append('    memset(&fresh, 0x5a, sizeof fresh); %s__init(&fresh, pbcv_destroy%d);' % (lc, si))
         body.append('    { int cleared = 1; void **h = (void **) (&fresh.base + 1); for (k = 0; k < d->n_methods; k++) if (h[k]) cleared = 0;')
         # "initialising a service clears all handlers" whatever the object held before: a second initialisation of an
